@@ -320,4 +320,447 @@ class OPSpec(Spec):
         return OPOracle(row, n)
 
 
-SPECS = {s.name: s for s in (TSPSpec(), ATSPSpec(), CVRPSpec(), SDVRPSpec(), OPSpec())}
+# =========================================================================================== PCTSP / SPCTSP
+class PCTSPOracle:
+    """nodes at most once; ends at the first return to the depot; collected REAL prize >= 1 unless every node was
+    visited; objective = -(closed length + penalties of unvisited nodes)"""
+
+    def __init__(self, row, n, stochastic):
+        self.n, self.row = n, row
+        self.D = O.dist_matrix(row["X"], row["Y"])
+        self.prize = [0.0] + list(row["stoch"] if stochastic else row["det"])
+        self.pen = [0.0] + list(row["penalty"])
+
+    def start(self):
+        return OState(visited=[False] * (self.n + 1), cur=0, length=0.0, prize=0.0, returned=False)
+
+    def step(self, st, a, active, t):
+        cust = s_ne(a, 0)
+        st.flag(s_and(active, cust), "visit_at_most_once", pick(a, st["visited"]))
+        ret = s_and(s_not(cust), t > 0)
+        allv = all_(st["visited"][1:])
+        st.flag(s_and(active, ret), "min_prize", s_and(s_lt(st["prize"], s_sub(1.0, margin())), s_not(allv)))
+        st.upd(active, visited=[s_or(v, s_and(cust, s_eq(a, k))) for k, v in enumerate(st["visited"])],
+               length=s_add(st["length"], pick2(st["cur"], a, self.D)), cur=a, prize=s_add(st["prize"], pick(a, self.prize)),
+               returned=s_or(st["returned"], ret))
+
+    def complete(self, st):
+        return st["returned"]
+
+    def objective(self, st):
+        unv = ssum([s_where(v, 0.0, p) for v, p in zip(st["visited"][1:], self.pen[1:])])
+        return O.s_neg(s_add(st["length"], unv))
+
+
+class PCTSPSpec(Spec):
+    name, module, cls = "pctsp", "rl4co.envs.routing.pctsp.env", "PCTSPEnv"
+    stochastic = False
+
+    def bound(self, n, variant):
+        return n + 1
+
+    def instance(self, src, B, n, variant):
+        rows, locs, depots, det, sto, pen = [], [], [], [], [], []
+        for b in range(B):
+            X, Y = src.coords(f"r{b}_", n + 1)
+            d = [src.real(f"r{b}_dp{j}", 0, None) for j in range(1, n + 1)]
+            s_ = [src.real(f"r{b}_sp{j}", 0, None) for j in range(1, n + 1)]
+            pe = [src.real(f"r{b}_pen{j}", 0, None) for j in range(1, n + 1)]
+            rows.append({"X": X, "Y": Y, "det": d, "stoch": s_, "penalty": pe})
+            depots.append([X[0], Y[0]])
+            locs.append([[x, y] for x, y in zip(X[1:], Y[1:])])
+            det.append(d), sto.append(s_), pen.append(pe)
+        src.ctx.assumptions.add("PCTSP/SPCTSP: prizes and penalties >= 0 (generator: uniform on non-negative ranges)")
+        td = TensorDict({"locs": ftensor(locs), "depot": ftensor(depots), "penalty": ftensor(pen), "deterministic_prize": ftensor(det),
+                         "stochastic_prize": ftensor(sto)}, batch_size=[B])
+        return Inst(td, rows, src.reals, src.ys)
+
+    def rows_from_td(self, td, B, n, variant):
+        L, Dp = td["locs"].a, td["depot"].a
+        return [{"X": [Dp[b, 0]] + list(L[b, :, 0]), "Y": [Dp[b, 1]] + list(L[b, :, 1]), "det": list(td["deterministic_prize"].a[b]),
+                 "stoch": list(td["stochastic_prize"].a[b]), "penalty": list(td["penalty"].a[b])} for b in range(B)]
+
+    def oracle(self, row, n, variant):
+        return PCTSPOracle(row, n, self.stochastic)
+
+
+class SPCTSPSpec(PCTSPSpec):
+    name, module, cls = "spctsp", "rl4co.envs.routing.spctsp.env", "SPCTSPEnv"
+    stochastic = True
+
+
+# =========================================================================================== PDP
+class PDPOracle:
+    """all nodes 1..n exactly once starting from the depot, pickup j before its delivery j+n/2; closed tour from depot"""
+
+    def __init__(self, row, n, force_depot):
+        self.n, self.h, self.force = n, n // 2, force_depot
+        self.D = O.dist_matrix(row["X"], row["Y"])
+
+    def start(self):
+        return OState(visited=[False] * (self.n + 1), cur=0, length=0.0)
+
+    def step(self, st, a, active, t):
+        if self.force and t == 0:
+            st.flag(active, "start_at_depot", s_ne(a, 0))
+            return
+        st.flag(active, "no_depot_in_tour", s_eq(a, 0))
+        st.flag(active, "visit_once", pick(a, st["visited"]))
+        # delivery k (k > h) requires its pickup k-h to be visited already
+        need = [True] * (self.h + 1) + [st["visited"][k - self.h] for k in range(self.h + 1, self.n + 1)]
+        st.flag(active, "precedence", s_not(pick(a, need)))
+        st.upd(active, visited=[s_or(v, s_eq(a, k)) for k, v in enumerate(st["visited"])],
+               length=s_add(st["length"], pick2(st["cur"], a, self.D)), cur=a)
+
+    def complete(self, st):
+        return all_(st["visited"][1:])
+
+    def objective(self, st):
+        return O.s_neg(s_add(st["length"], pick(st["cur"], [r[0] for r in self.D])))
+
+
+class PDPSpec(Spec):
+    name, module, cls = "pdp", "rl4co.envs.routing.pdp.env", "PDPEnv"
+    variants = ("free", "depot")
+
+    def env_kwargs(self, n, variant):
+        return {"generator_params": {"num_loc": n}, "check_solution": False, "force_start_at_depot": variant == "depot"}
+
+    def bound(self, n, variant):
+        return n + (1 if variant == "depot" else 0)
+
+    def instance(self, src, B, n, variant):
+        rows, locs, depots = [], [], []
+        for b in range(B):
+            X, Y = src.coords(f"r{b}_", n + 1)
+            rows.append({"X": X, "Y": Y})
+            depots.append([X[0], Y[0]])
+            locs.append([[x, y] for x, y in zip(X[1:], Y[1:])])
+        td = TensorDict({"locs": ftensor(locs), "depot": ftensor(depots)}, batch_size=[B])
+        return Inst(td, rows, src.reals, src.ys)
+
+    def rows_from_td(self, td, B, n, variant):
+        L, Dp = td["locs"].a, td["depot"].a
+        return [{"X": [Dp[b, 0]] + list(L[b, :, 0]), "Y": [Dp[b, 1]] + list(L[b, :, 1])} for b in range(B)]
+
+    def oracle(self, row, n, variant):
+        return PDPOracle(row, n, variant == "depot")
+
+
+# =========================================================================================== mTSP
+class MTSPOracle:
+    """cities 1..n-1 exactly once, at most m sub-tours (each depot -> cities -> depot), no empty sub-tour;
+    minmax: -(longest closed sub-tour); sum: -(total closed length)"""
+
+    def __init__(self, row, n, cost):
+        self.n, self.m, self.cost = n, row["m"], cost
+        self.D = O.dist_matrix(row["X"], row["Y"])
+
+    def start(self):
+        return OState(visited=[False] * self.n, cur=0, sub=0.0, longest=0.0, total=0.0, returns=0)
+
+    def step(self, st, a, active, t):
+        city = s_ne(a, 0)
+        st.flag(s_and(active, city), "visit_once", pick(a, st["visited"]))
+        st.flag(s_and(active, s_not(city)), "no_empty_subtour", s_eq(st["cur"], 0))
+        leg = pick2(st["cur"], a, self.D)
+        sub = s_add(st["sub"], leg)
+        st.flag(s_and(active, s_not(city)), "agents", s_ge(s_add(st["returns"], 1), self.m))  # a return opens one more sub-tour
+        st.upd(active, visited=[s_or(v, s_and(city, s_eq(a, k))) for k, v in enumerate(st["visited"])], cur=a,
+               sub=s_where(city, sub, 0.0), longest=s_where(city, st["longest"], s_max(st["longest"], sub)),
+               total=s_add(st["total"], leg), returns=s_add(st["returns"], s_where(city, 0, 1)))
+
+    def complete(self, st):
+        return all_(st["visited"][1:])
+
+    def objective(self, st):
+        back = pick(st["cur"], [r[0] for r in self.D])
+        if self.cost == "minmax":
+            return O.s_neg(s_max(st["longest"], s_add(st["sub"], back)))
+        return O.s_neg(s_add(st["total"], back))
+
+
+class MTSPSpec(Spec):
+    name, module, cls = "mtsp", "rl4co.envs.routing.mtsp.env", "MTSPEnv"
+    variants = ("minmax", "sum")
+    checker = False
+
+    def env_kwargs(self, n, variant):
+        return {"generator_params": {"num_loc": n, "min_num_agents": 1, "max_num_agents": max(1, n - 1)}, "check_solution": False, "cost_type": variant}
+
+    def n_actions(self, n, variant):
+        return n
+
+    def bound(self, n, variant):
+        return 2 * (n - 1)
+
+    def instance(self, src, B, n, variant):
+        rows, locs, ms = [], [], []
+        for b in range(B):
+            X, Y = src.coords(f"r{b}_", n)
+            m = src.int(f"r{b}_agents", 1, max(1, n - 1))
+            rows.append({"X": X, "Y": Y, "m": m})
+            locs.append([[x, y] for x, y in zip(X, Y)])
+            ms.append(m)
+        src.ctx.assumptions.add("mTSP: 1 <= num_agents <= n-1; node 0 is the depot")
+        td = TensorDict({"locs": ftensor(locs), "num_agents": T.Tensor(np.array(ms, dtype=object), T.int64)}, batch_size=[B])
+        return Inst(td, rows, src.reals, src.ys)
+
+    def rows_from_td(self, td, B, n, variant):
+        L = td["locs"].a
+        return [{"X": list(L[b, :, 0]), "Y": list(L[b, :, 1]), "m": td["num_agents"].a[b]} for b in range(B)]
+
+    def oracle(self, row, n, variant):
+        return MTSPOracle(row, n, variant)
+
+
+# =========================================================================================== SVRP
+class SVRPOracle:
+    """each customer once; route r (0-based count of depot visits so far) is driven by technician r, whose skill
+    must cover every customer of the route; at most |techs| routes; cost = sum leg * cost[tech of the leg]"""
+
+    def __init__(self, row, n, costs):
+        self.n, self.row, self.costs = n, row, [float(c) for c in costs]
+        self.D = O.dist_matrix(row["X"], row["Y"])
+        self.skill = [0.0] + list(row["skills"])
+        self.techs = list(row["techs"])
+
+    def start(self):
+        return OState(visited=[False] * (self.n + 1), cur=0, tech=0, cost=0.0)
+
+    def step(self, st, a, active, t):
+        cust = s_ne(a, 0)
+        K = len(self.techs)
+        st.flag(s_and(active, cust), "visit_once", pick(a, st["visited"]))
+        st.flag(s_and(active, cust), "technicians", s_ge(st["tech"], K))
+        tsk = pick(s_min(st["tech"], K - 1), self.techs)
+        st.flag(s_and(active, cust), "skill", s_lt(tsk, s_sub(pick(a, self.skill), margin())))
+        leg = pick2(st["cur"], a, self.D)
+        wleg = pick(s_min(st["tech"], K - 1), [s_mul(c, leg) for c in self.costs])  # keeps the term linear
+        st.upd(active, visited=[s_or(v, s_and(cust, s_eq(a, k))) for k, v in enumerate(st["visited"])], cur=a,
+               cost=s_add(st["cost"], wleg), tech=s_add(st["tech"], s_where(cust, 0, 1)))
+
+    def complete(self, st):
+        return all_(st["visited"][1:])
+
+    def objective(self, st):
+        K = len(self.techs)
+        back = pick(st["cur"], [r[0] for r in self.D])
+        return O.s_neg(s_add(st["cost"], pick(s_min(st["tech"], K - 1), [s_mul(c, back) for c in self.costs])))
+
+
+class SVRPSpec(Spec):
+    name, module, cls = "svrp", "rl4co.envs.routing.svrp.env", "SVRPEnv"
+    costs = (1, 2)
+
+    def env_kwargs(self, n, variant):
+        return {"generator_params": {"num_loc": n, "tech_costs": list(self.costs)}, "check_solution": False}
+
+    def instance(self, src, B, n, variant):
+        rows, locs, depots, techs, skills = [], [], [], [], []
+        K = len(self.costs)
+        for b in range(B):
+            X, Y = src.coords(f"r{b}_", n + 1)
+            tk = [src.real(f"r{b}_tech{k}", 1, 10) for k in range(K)]
+            for k in range(K - 1):
+                src.assume(tk[k] <= tk[k + 1])
+            sk = [src.real(f"r{b}_skill{j}", 0, None) for j in range(1, n + 1)]
+            for x in sk:
+                src.assume(x <= tk[-1])
+            rows.append({"X": X, "Y": Y, "techs": tk, "skills": sk})
+            depots.append([X[0], Y[0]])
+            locs.append([[x, y] for x, y in zip(X[1:], Y[1:])])
+            techs.append([[x] for x in tk]), skills.append([[x] for x in sk])
+        src.ctx.assumptions.add("SVRP: technician skills ascending in [1,10]; 0 <= customer skill <= highest technician skill (generator contract)")
+        td = TensorDict({"locs": ftensor(locs), "depot": ftensor(depots), "techs": ftensor(techs), "skills": ftensor(skills)}, batch_size=[B])
+        return Inst(td, rows, src.reals, src.ys)
+
+    def rows_from_td(self, td, B, n, variant):
+        L, Dp = td["locs"].a, td["depot"].a
+        return [{"X": [Dp[b, 0]] + list(L[b, :, 0]), "Y": [Dp[b, 1]] + list(L[b, :, 1]), "techs": list(td["techs"].a[b, :, 0]),
+                 "skills": list(td["skills"].a[b, :, 0])} for b in range(B)]
+
+    def oracle(self, row, n, variant):
+        return SVRPOracle(row, n, self.costs)
+
+
+# =========================================================================================== CVRPTW
+class CVRPTWOracle(CVRPOracle):
+    """CVRP + service must start within [e_j, l_j] (waiting allowed), clock restarts at the depot, the vehicle is
+    back at the depot by the depot's closing time"""
+
+    def start(self):
+        return OState(visited=[False] * (self.n + 1), cur=0, length=0.0, load=0.0, time=0.0)
+
+    def step(self, st, a, active, t):
+        cust = s_ne(a, 0)
+        arr = s_add(st["time"], pick2(st["cur"], a, self.D))
+        late = pick(a, self.row["late"])
+        st.flag(s_and(active, cust), "time_window", s_gt(arr, s_add(late, margin())))
+        st.flag(s_and(active, s_not(cust)), "return_in_time", s_gt(arr, s_add(late, margin())))
+        newt = s_where(cust, s_add(s_max(arr, pick(a, self.row["early"])), pick(a, self.row["service"])), 0.0)
+        CVRPOracle.step(self, st, a, active, t)
+        st.upd(active, time=newt)
+
+
+class CVRPTWSpec(CVRPSpec):
+    name, module, cls = "cvrptw", "rl4co.envs.routing.cvrptw.env", "CVRPTWEnv"
+    MAXT, MAXLOC = 480.0, 150.0
+
+    def instance(self, src, B, n, variant):
+        rows, locs, depots, dems, durs, tws = [], [], [], [], [], []
+        from symtorch import dist as DS
+
+        for b in range(B):
+            X, Y = src.coords(f"r{b}_", n + 1, 0, self.MAXLOC)
+            dem = [src.real(f"r{b}_d{j}", 0, 1, lo_strict=True) for j in range(1, n + 1)]
+            e = [0.0] + [src.real(f"r{b}_e{j}", 0, None) for j in range(1, n + 1)]
+            l = [self.MAXT] + [src.real(f"r{b}_l{j}", 0, None) for j in range(1, n + 1)]
+            sv = [0.0] + [src.real(f"r{b}_s{j}", 0, None) for j in range(1, n + 1)]
+            for j in range(1, n + 1):
+                d0 = DS.norm2(X[0] - X[j], Y[0] - Y[j])
+                src.assume(z3.And(e[j] < l[j], d0 <= l[j], l[j] + sv[j] + d0 <= self.MAXT))
+            rows.append({"X": X, "Y": Y, "demand": dem, "early": e, "late": l, "service": sv})
+            depots.append([X[0], Y[0]])
+            locs.append([[x, y] for x, y in zip(X[1:], Y[1:])])
+            dems.append(dem), durs.append(sv), tws.append([[a_, b_] for a_, b_ in zip(e, l)])
+        src.ctx.assumptions.add("CVRPTW (generator contract): coords in [0,150], depot window [0,480]; per customer 0<=e<l, d(depot,j)<=l, l+service+d(depot,j)<=480, service>=0")
+        td = TensorDict({"locs": ftensor(locs), "depot": ftensor(depots), "demand": ftensor(dems), "durations": ftensor(durs),
+                         "time_windows": ftensor(tws)}, batch_size=[B])
+        return Inst(td, rows, src.reals, src.ys)
+
+    def rows_from_td(self, td, B, n, variant):
+        rows = CVRPSpec.rows_from_td(self, td, B, n, variant)
+        for b in range(B):
+            rows[b].update(early=list(td["time_windows"].a[b, :, 0]), late=list(td["time_windows"].a[b, :, 1]), service=list(td["durations"].a[b]))
+        return rows
+
+    def oracle(self, row, n, variant):
+        return CVRPTWOracle(row, n)
+
+
+# =========================================================================================== MTVRP (16 variants)
+class MTVRPOracle:
+    """visit once; linehaul load <= 1 and backhaul load <= 1 per route; no linehaul after a backhaul within a route;
+    route length (open routes: without the return leg) <= L; service starts by l_j (waiting allowed); closed routes
+    are back at the depot by the depot's closing time; cost = sum of legs, open routes not charged for the return"""
+
+    def __init__(self, row, n, flags):
+        self.n, self.row = n, row
+        self.O, self.TW, self.L, self.B = flags
+        self.D = O.dist_matrix(row["X"], row["Y"])
+
+    def start(self):
+        return OState(visited=[False] * (self.n + 1), cur=0, cost=0.0, ll=0.0, lb=0.0, time=0.0, rlen=0.0, hadb=False)
+
+    def step(self, st, a, active, t):
+        r = self.row
+        cust = s_ne(a, 0)
+        leg = pick2(st["cur"], a, self.D)
+        st.flag(s_and(active, cust), "visit_once", pick(a, st["visited"]))
+        isb = pick(a, r["isback"])
+        st.flag(s_and(active, cust), "linehaul_before_backhaul", s_and(s_not(isb), st["hadb"]))
+        ll = s_where(cust, s_add(st["ll"], pick(a, r["dl"])), 0.0)
+        lb = s_where(cust, s_add(st["lb"], pick(a, r["db"])), 0.0)
+        st.flag(active, "capacity", s_or(s_gt(ll, s_add(1.0, margin())), s_gt(lb, s_add(1.0, margin()))))
+        charged = leg if not self.O else s_where(cust, leg, 0.0)
+        if self.L:
+            st.flag(active, "route_length", s_gt(s_add(st["rlen"], charged), s_add(r["limit"], margin())))
+        if self.TW:
+            arr = s_add(st["time"], leg)
+            late = pick(a, r["late"])
+            if self.O:
+                st.flag(s_and(active, cust), "time_window", s_gt(arr, s_add(late, margin())))
+            else:
+                st.flag(s_and(active, cust), "time_window", s_gt(arr, s_add(late, margin())))
+                st.flag(s_and(active, s_not(cust)), "return_in_time", s_gt(arr, s_add(late, margin())))
+            newt = s_where(cust, s_add(s_max(arr, pick(a, r["early"])), pick(a, r["service"])), 0.0)
+        else:
+            newt = 0.0
+        st.upd(active, visited=[s_or(v, s_and(cust, s_eq(a, k))) for k, v in enumerate(st["visited"])], cur=a,
+               cost=s_add(st["cost"], charged), ll=ll, lb=lb, time=newt, rlen=s_where(cust, s_add(st["rlen"], leg), 0.0),
+               hadb=s_where(cust, s_or(st["hadb"], isb), False))
+
+    def complete(self, st):
+        return all_(st["visited"][1:])
+
+    def objective(self, st):
+        back = pick(st["cur"], [r_[0] for r_ in self.D])
+        return O.s_neg(s_add(st["cost"], 0.0 if self.O else back))
+
+
+def mtvrp_flags(variant):
+    v = variant or ""
+    return ("O" in v, "TW" in v, "L" in v.replace("TW", ""), "B" in v)
+
+
+def mtvrp_preset(variant):
+    o, tw, l, b = mtvrp_flags(variant)
+    if not (o or tw or l or b):
+        return "cvrp"
+    return ("o" if o else "") + "vrp" + ("b" if b else "") + ("l" if l else "") + ("tw" if tw else "")
+
+
+class MTVRPSpec(Spec):
+    name, module, cls = "mtvrp", "rl4co.envs.routing.mtvrp.env", "MTVRPEnv"
+    variants = ("", "O", "B", "L", "TW", "OTW", "OB", "OL", "BL", "BTW", "LTW", "OBL", "OBTW", "OLTW", "BLTW", "OBLTW")
+    MAXT, LIMIT = 4.6, 3.0
+
+    def env_kwargs(self, n, variant):
+        return {"generator_params": {"num_loc": n, "variant_preset": mtvrp_preset(variant)}, "check_solution": False}
+
+    def instance(self, src, B, n, variant):
+        from symtorch import dist as DS
+
+        Of, TWf, Lf, Bf = mtvrp_flags(variant)
+        rows, cols = [], {k: [] for k in ("locs", "dl", "db", "limit", "tw", "svc", "open", "cap", "cap0", "speed")}
+        inf = math.inf
+        for b in range(B):
+            X, Y = src.coords(f"r{b}_", n + 1)
+            dem = [0.0] + [src.real(f"r{b}_d{j}", 0, 1, lo_strict=True) for j in range(1, n + 1)]
+            isb = [False] + [(z3.Bool(f"r{b}_isback{j}") if Bf else False) for j in range(1, n + 1)]
+            dl = [s_where(isb[j], 0.0, dem[j]) for j in range(n + 1)]
+            db = [s_where(isb[j], dem[j], 0.0) for j in range(n + 1)]
+            if TWf:
+                e = [0.0] + [src.real(f"r{b}_e{j}", 0, None) for j in range(1, n + 1)]
+                l = [self.MAXT] + [src.real(f"r{b}_l{j}", 0, None) for j in range(1, n + 1)]
+                sv = [0.0] + [src.real(f"r{b}_s{j}", 0, None) for j in range(1, n + 1)]
+                for j in range(1, n + 1):
+                    d0 = DS.norm2(X[j] - X[0], Y[j] - Y[0])
+                    ln = l[j] - e[j]
+                    src.assume(z3.And(sv[j] >= z3.RealVal("0.15"), sv[j] <= z3.RealVal("0.18"), ln >= z3.RealVal("0.18"), ln <= z3.RealVal("0.2"),
+                                      e[j] >= d0, e[j] <= self.MAXT - sv[j] - ln - d0))
+            else:
+                e, l, sv = [0.0] * (n + 1), [inf] * (n + 1), [0.0] * (n + 1)
+            if Lf:
+                for j in range(1, n + 1):
+                    src.assume(2 * DS.norm2(X[j] - X[0], Y[j] - Y[0]) < self.LIMIT)
+            limit = self.LIMIT if Lf else inf
+            rows.append({"X": X, "Y": Y, "dl": dl, "db": db, "isback": isb, "early": e, "late": l, "service": sv, "limit": limit})
+            cols["locs"].append([[x, y] for x, y in zip(X, Y)])
+            cols["dl"].append(dl), cols["db"].append(db), cols["limit"].append([limit])
+            cols["tw"].append([[a_, b_] for a_, b_ in zip(e, l)]), cols["svc"].append(sv)
+            cols["open"].append([Of]), cols["cap"].append([1.0]), cols["cap0"].append([30.0]), cols["speed"].append([1.0])
+        src.ctx.assumptions.add("MTVRP (generator contract): coords in [0,1]; 0<demand<=1 (scaled); speed=1; distance limit 3.0 (> 2*sqrt(2)); TW: service in [0.15,0.18], window length l-e in [0.18,0.2], d(0,j) <= e_j <= 4.6 - service - length - d(0,j); depot window [0,4.6]; L: 2*d(0,j) < 3.0 (asserted by the generator); backhaul pattern arbitrary")
+        td = TensorDict({"locs": ftensor(cols["locs"]), "demand_linehaul": ftensor(cols["dl"]), "demand_backhaul": ftensor(cols["db"]),
+                         "distance_limit": ftensor(cols["limit"]), "time_windows": ftensor(cols["tw"]), "service_time": ftensor(cols["svc"]),
+                         "open_route": T.Tensor(np.array(cols["open"], dtype=object), T.bool_), "vehicle_capacity": ftensor(cols["cap"]),
+                         "capacity_original": ftensor(cols["cap0"]), "speed": ftensor(cols["speed"])}, batch_size=[B])
+        return Inst(td, rows, src.reals, src.ys)
+
+    def rows_from_td(self, td, B, n, variant):
+        rows = []
+        for b in range(B):
+            L = td["locs"].a[b]
+            dl, db = list(td["demand_linehaul"].a[b]), list(td["demand_backhaul"].a[b])
+            rows.append({"X": list(L[:, 0]), "Y": list(L[:, 1]), "dl": dl, "db": db, "isback": [x > 0 for x in db],
+                         "early": list(td["time_windows"].a[b, :, 0]), "late": list(td["time_windows"].a[b, :, 1]),
+                         "service": list(td["service_time"].a[b]), "limit": td["distance_limit"].a[b, 0]})
+        return rows
+
+    def oracle(self, row, n, variant):
+        return MTVRPOracle(row, n, mtvrp_flags(variant))
+
+
+SPECS = {s.name: s for s in (TSPSpec(), ATSPSpec(), CVRPSpec(), SDVRPSpec(), OPSpec(), PCTSPSpec(), SPCTSPSpec(), PDPSpec(), MTSPSpec(),
+                             SVRPSpec(), CVRPTWSpec(), MTVRPSpec())}
